@@ -29,6 +29,19 @@ def run_deductive(rep):
                 rc = [("largest_folded_ratio", verify.replace_expr("ratios.min()", "ratios.max()"))]
             items.append((Difference(m, e), dc))
             items.append((Ratio(m, e), rc))
+    # integer-valued metric cells (counts): numpy integers are scalars, errors='coerce' must agree with errors='raise'
+    items.append((ApplyGrouping("min", "coerce", int_cells=True), [("only_floats_count_as_scalars", verify.replace_expr("np.isscalar(y)", "isinstance(y, float)"))]))
+    items.append((ApplyGrouping("max", "raise", int_cells=True), []))
+    items.append((Difference("between_groups", "coerce", int_cells=True), []))
+    items.append((Difference("to_overall", "coerce", int_cells=True), []))
+    items.append((Ratio("between_groups", "coerce", int_cells=True), []))
+    # with control features: one generic control-feature combination (stratum) of a (control x sensitive)-indexed by_group
+    for e in ("raise", "coerce"):
+        items.append((ApplyGrouping("min", e, cf=True), []))
+        items.append((ApplyGrouping("max", e, cf=True), [("grouped_by_column_instead_of_index_level", verify.replace_expr("self.by_group.groupby(level=control_feature_names)", "self.by_group.groupby(control_feature_names)"))] if e == "raise" else []))
+        items.append((Difference("between_groups", e, cf=True), []))
+        items.append((Difference("to_overall", e, cf=True), [("stratum_minimum_not_broadcast", verify.replace_expr("(mf - subtrahend).abs().groupby(level=control_feature_names).max()", "(mf - subtrahend).abs().max()"))] if e == "coerce" else []))
+        items.append((Ratio("between_groups", e, cf=True), []))
     rep.trust("pandas agg/min/max on non-NaN columns are the extrema; frame.apply / Series.apply / transform are column-wise / element-wise (assumed); one generic metric column, "
               "no control features, scalar non-NaN cells (the rest: bounded stand-in)")
     verify.verify_many(rep, items)
